@@ -11,7 +11,7 @@ from collections import Counter, defaultdict
 
 from .. import gen
 from ..cli import run_cli, parse_tree, ANSI
-from ..common import Inconclusive
+from ..common import write_tree, Inconclusive
 from ..runner import vh_bin, srv_bin, materialize, expected_target
 from ..vh import VH
 
@@ -162,8 +162,86 @@ def run(ctx):
             ctx.sample({"spec": ws.spec, "unused_text": out_t[-400:], "exit": rc_t})
             ctx.count("workspaces")
             shutil.rmtree(root, ignore_errors=True)
+        for i in range(6 if quick else 200):
+            venv_layout_counts(ctx, vh, i)
+        odd_paths(ctx)
     finally:
         vh.close()
+
+
+def venv_layout_counts(ctx, vh, i):
+    """virtual environments with site-packages plugins and editable installs inside / outside the workspace (several
+    fixtures per plugin module): the count `fixtures list` shows for a fixture = the number of references the index has"""
+    from .c14 import gen_venv_layout
+    base = ctx.scratch(f"vl{i}")
+    root, outside = os.path.join(base, "ws"), os.path.join(base, "outside")
+    files, ext_files, expect = gen_venv_layout(root, outside, ctx.rng)
+    write_tree(root, files)
+    write_tree(outside, ext_files)
+    root = os.path.realpath(root)
+    db = vh.new_db()
+    vh.call(op="scan", db=db, root=root)
+    raw = vh.call(op="raw", db=db)
+    q = vh.call(op="queries", db=db)
+    vh.call(op="drop_db", db=db)
+    refs = {tuple(r["def"]): len(r["refs"]) for r in q["refs"]}
+    by_name = {}
+    for name, defs in raw["definitions"].items():
+        if len(defs) == 1:
+            d = defs[0]
+            by_name[name] = refs.get((d["file"], d["line"], name), 0)
+    rc, out, err = run_cli(srv_bin(), ["fixtures", "list", root])
+    if "panicked" in err:
+        ctx.violation({"kind": "cli-panicked", "inv": "list(venv layout)"}, {"stderr": err[-600:]}, files=files)
+        return
+    tree, _ = parse_tree(out)
+    seen = 0
+    for (frel, name), info in tree.items():
+        if name in by_name and name in expect:
+            ctx.judged()
+            seen += 1
+            if info["count"] != by_name[name]:
+                ctx.violation({"kind": "list-count-differs-from-references", "fixture": name, "tier": expect[name]["tier"],
+                               "shown_under": frel.split("site-packages")[-1] if "site-packages" in frel else frel},
+                              {"cli": info, "references": by_name[name], "defined_in": expect[name]["rel"]}, files=files | {"outside/" + k: v for k, v in ext_files.items()})
+            ctx.nontrivial(("venv_layout", expect[name]["tier"], info["count"] > 0))
+    ctx.count("venv_layout_fixtures_compared", seen)
+    shutil.rmtree(base, ignore_errors=True)
+
+
+def odd_paths(ctx):
+    """a directory whose name is not valid UTF-8: both formats of `fixtures unused` still agree, JSON stays valid"""
+    base = ctx.scratch("odd")
+    root = os.path.join(base, "ws")
+    write_tree(root, {"conftest.py": "import pytest\n\n@pytest.fixture\ndef used_fx():\n    return 1\n",
+                      "test_ok.py": "def test_ok(used_fx):\n    pass\n"})
+    odd = os.path.join(os.fsencode(root), b"caf\xe9_dir")
+    os.makedirs(odd, exist_ok=True)
+    with open(os.path.join(odd, b"conftest.py"), "w") as f:
+        f.write("import pytest\n\n@pytest.fixture\ndef lonely_in_odd_dir():\n    return 1\n")
+    with open(os.path.join(odd, b"test_x.py"), "w") as f:
+        f.write("def test_x(used_fx):\n    pass\n")
+    res = {}
+    for fmt in ("text", "json"):
+        rc, out, err = run_cli(srv_bin(), ["fixtures", "unused", root] + (["--format", "json"] if fmt == "json" else []))
+        res[fmt] = (rc, out, err)
+        ctx.judged()
+        if "panicked" in err or rc not in (0, 1):
+            ctx.violation({"kind": "cli-fails-on-non-utf8-path", "format": fmt}, {"rc": rc, "stderr": err[-500:]})
+    try:
+        js = json.loads(res["json"][1])
+        names_j = sorted(x["fixture"] for x in js)
+    except Exception as e:
+        ctx.violation({"kind": "json-output-invalid", "case": "non-utf8 directory name"}, {"out": res["json"][1][-300:], "err": str(e)})
+        names_j = None
+    names_t = sorted(k[1] for k in parse_unused_text(res["text"][1]))
+    if names_j is not None:
+        ctx.judged()
+        if names_j != names_t or res["json"][0] != res["text"][0] or names_t != ["lonely_in_odd_dir"]:
+            ctx.violation({"kind": "json-and-text-entries-differ", "case": "non-utf8 directory name"},
+                          {"json": names_j, "text": names_t, "rc": [res["json"][0], res["text"][0]]})
+    ctx.nontrivial(("odd_paths", tuple(names_t)))
+    shutil.rmtree(base, ignore_errors=True)
 
 
 def pinned(ctx, vh):
